@@ -15,6 +15,9 @@ pub struct Case {
     pub resps: Vec<AResp>,
     pub seg: Seg,
     pub flavour: Flavour,
+    /// 0: receive(); 1: the command() helper; 2: the command_list() helper
+    #[serde(default)]
+    pub via: u8,
 }
 
 pub fn check(case: &Case) -> CaseResult {
@@ -45,7 +48,20 @@ pub fn check(case: &Case) -> CaseResult {
         r.nontrivial();
     }
 
-    let obs = run(case.flavour, GREETING, &enc.bytes, &case.seg, 0);
+    let obs = match case.via % 3 {
+        0 => run(case.flavour, GREETING, &enc.bytes, &case.seg, 0),
+        v => {
+            r.class("via_command_helpers");
+            let mut o = crate::streamlab::run_via_helpers(case.flavour, &enc.bytes, &case.seg, v == 2);
+            // the helpers turn the clean end after the last response into UnexpectedEof
+            if o.terminal == crate::streamlab::eof() && o.responses.len() == expected.len() {
+                o.terminal = Terminal::CleanEof;
+            } else if o.terminal == Terminal::CleanEof {
+                o.terminal = Terminal::Io("helper reported a clean end as Ok".into());
+            }
+            o
+        }
+    };
     if let Some(m) = &obs.accessor_mismatch {
         r.fail(m.clone());
         return r;
@@ -85,8 +101,9 @@ fn strategy(tier: Tier) -> BoxedStrategy<Case> {
         wire::responses(6, max_payload, tier.pick(6_000, 20_000)),
         seg_strategy(6000),
         (0..3usize).prop_map(|i| FLAVOURS[i]),
+        prop_oneof![3 => Just(0u8), 1 => Just(1u8), 1 => Just(2u8)],
     )
-        .prop_map(|(resps, seg, flavour)| Case { resps, seg, flavour })
+        .prop_map(|(resps, seg, flavour, via)| Case { resps, seg, flavour, via })
         .boxed()
 }
 
